@@ -102,10 +102,10 @@ theorem follow_pool (srv : Nat → Nat → Bool) (steps : List Step) :
       simp [List.append_assoc]
     | raise e =>
       simp only [Http.turn, processStep, hact, producer, failLogs]
-      rw [follow_err]; simp
+      rw [follow_logs, follow_err]
     | nothing =>
       simp only [Http.turn, processStep, hact, producer, failLogs]
-      rw [follow_err]; simp
+      rw [follow_logs, follow_err]
 
 /-- the pool of real workers as a family of oracles -/
 theorem serve_eq (pool : Nat → Option Nat) (sz : Item → Nat) (pre : Nat) (steps : List Step) :
@@ -248,10 +248,10 @@ theorem count_pool (pool : Nat → Option Nat) (sz : Item → Nat) (pre : Nat) (
       omega
     | raise e =>
       simp only [turn, processStep, hact]
-      rw [countTurns_err]; omega
+      rw [countTurns_logs, countTurns_err]; omega
     | nothing =>
       simp only [turn, processStep, hact]
-      rw [countTurns_err]; omega
+      rw [countTurns_logs, countTurns_err]; omega
 
 /-! ### little-endian length prefix -/
 
